@@ -143,7 +143,7 @@ pub fn run(rep: &mut Report) {
 	let us = units(if thorough { 3 } else { 2 });
 	let (max_items, max_leaves) = if thorough { (3, 60_000) } else { (2, 20_000) };
 	rep.rule = format!(
-		"SAE: every schema of the shared alphabet Σ_S (level {}), every value from the boundary alphabet Σ_V with collections of <= {} items (odometer over the value's choice tree, per-schema leaf cap {}), each executed in 3 presentation styles (unions by type where unambiguous / by branch name; records as struct / as map), then decoded in 3 observation modes (deserialize_any / hinted enums and typed leaves / Option for nullable unions) from slice, whole-buffer reader and 1-byte-chunk reader; oracle: reference decoder returns the value and the observation equals the expected one (floats by bits, borrowed-ness on the slice path). Plus 14 families of ordinary Rust types (derived Serialize/Deserialize: structs, integer widths, Option, enums-as-unions with newtype and struct variants, unit enums, Vec/BTreeMap/HashMap, recursive types, rust_decimal / duration / temporal logical types, serde newtype structs, tuples / [T; N] / tuple structs over arrays, borrowed &str/&[u8] checked to point into the input) with exhaustive small value domains, bytes judged by the reference decoder and the decoded Rust value compared after translation to the reference value. Non-trivial: schema is not a bare primitive or the encoding has >= 2 bytes; distinct on (schema, value).",
+		"SAE: every schema of the shared alphabet Σ_S (level {}), every value from the boundary alphabet Σ_V with collections of <= {} items (odometer over the value's choice tree, per-schema leaf cap {}), each executed in 3 presentation styles (unions by type where unambiguous / by branch name; records as struct / as map), then decoded in 3 observation modes (deserialize_any / hinted enums and typed leaves / Option for nullable unions) from slice, whole-buffer reader and 1-byte-chunk reader; oracle: reference decoder returns the value and the observation equals the expected one (floats by bits, borrowed-ness on the slice path). Plus 14 families of ordinary Rust types (derived Serialize/Deserialize: structs, integer widths, Option, enums-as-unions with newtype and struct variants, unit enums, Vec/BTreeMap/HashMap, recursive types, rust_decimal / duration / temporal logical types, serde newtype structs, tuples / [T; N] / tuple structs over arrays, borrowed &str/&[u8] checked to point into the input) with exhaustive small value domains, bytes judged by the reference decoder and the decoded Rust value compared after translation to the reference value. Plus depth ladders: arrays / maps / records nested k = 1..64 deep around an int must round-trip under the default depth limit and under allowed_depth = k and k+1. Non-trivial: schema is not a bare primitive or the encoding has >= 2 bytes; distinct on (schema, value).",
 		if thorough { 3 } else { 2 },
 		max_items,
 		max_leaves
@@ -160,9 +160,88 @@ pub fn run(rep: &mut Report) {
 	let mut typed_viol = Vec::new();
 	crate::c01_typed::run_all(&mut rep.cover, &mut typed_viol);
 	rep.violations.extend(typed_viol);
+	depth_ladders(rep);
 	if thorough {
 		f32_sweep(rep);
 	}
+}
+
+/// "Nesting up to the depth limit": a datum nested exactly `allowed_depth` containers deep must
+/// round-trip (with the default limit of 64 and with small custom limits); what lies beyond the
+/// limit is C04's business.
+fn depth_ladders(rep: &mut Report) {
+	use vmodel::value::Canonical;
+	let mut out: Vec<Violation> = Vec::new();
+	for kind in ["array", "map", "record"] {
+		for k in 1usize..=64 {
+			// (the JSON text of k nested records is 3k levels deep: serde_json's own recursion
+			// limit of 128 refuses it beyond k = 42 - not a statement about Avro)
+			if kind == "record" && k > 40 {
+				continue;
+			}
+			// schema and value nested k containers deep around an int
+			let mut schema = RSchema::Int;
+			let mut value = RValue::Int(-65);
+			for level in 0..k {
+				match kind {
+					"array" => {
+						schema = RSchema::array(schema);
+						value = RValue::Array(vec![value]);
+					}
+					"map" => {
+						schema = RSchema::map(schema);
+						value = RValue::Map(vec![("k".to_owned(), value)]);
+					}
+					_ => {
+						schema = RSchema::record(&format!("L{level}"), vec![("f", schema)]);
+						value = RValue::Record(vec![value]);
+					}
+				}
+			}
+			let env = Env::new(&schema);
+			let text = gen::schema_text(&schema);
+			let cs = match gen::to_crate_schema(&schema) {
+				Ok(s) => s,
+				Err(e) => {
+					out.push(Violation { class: "schema-rejected".into(), what: e, replay: json!({"check": "C01", "ladder": kind, "k": k}) });
+					continue;
+				}
+			};
+			let expected = vmodel::value::encode(&value, &schema, &env, &mut Canonical).unwrap();
+			let p = gen::pres_of(&value, &schema, &env, UnionStyle::ByTypeWhereUnambiguous, RecordStyle::Struct);
+			rep.cover.evaluations += 1;
+			rep.cover.impl_runs += 1;
+			let mut viol = |class: &str, what: String| {
+				out.push(Violation { class: class.to_owned(), what: format!("depth ladder: {k} nested {kind}s around an int (schema of {} bytes): {what}", text.len()), replay: json!({"check": "C01", "ladder": kind, "k": k}) });
+			};
+			match subj::ser(&cs, &p) {
+				Out::Ok(b) if b == expected => {}
+				other => {
+					viol("ladder-ser", format!("serialization gave {} instead of the reference bytes [{}]", match &other { Out::Ok(b) => format!("[{}]", hex(b)), o => o.kind().to_owned() }, hex(&expected)));
+					continue;
+				}
+			}
+			let expect_o = gen::expect_obs(&value, &schema, &env, ObsMode::Any, false);
+			// default limit (64), and the limit set to exactly the depth of the datum
+			for limit in [None, Some(k), Some(k + 1)] {
+				rep.cover.impl_runs += 2;
+				let limits = Limits { allowed_depth: limit, max_seq_size: None, max_alloc_size: None };
+				let what_limit = limit.map_or("default allowed_depth (64)".to_owned(), |l| format!("allowed_depth = {l}"));
+				match subj::de_slice(&cs, &expected, &crate::obs::Hint::Any, &limits) {
+					Out::Ok((o, _)) if o.unborrowed() == expect_o => {}
+					other => viol("ladder-de", format!("slice, {what_limit}: a datum exactly {k} containers deep must decode, got {}", match other { Out::Ok((o, _)) => format!("{o:?}"), Out::Err(e) => format!("Err({e})"), Out::Panic(e) => format!("panic {e}") })),
+				}
+				let (r, _) = subj::de_reader(&cs, ChunkedBufRead::uniform(&expected, 1), &crate::obs::Hint::Any, &limits);
+				match r {
+					Out::Ok(o) if o == expect_o => {}
+					other => viol("ladder-de", format!("reader, {what_limit}: a datum exactly {k} containers deep must decode, got {}", match other { Out::Ok(o) => format!("{o:?}"), Out::Err(e) => format!("Err({e})"), Out::Panic(e) => format!("panic {e}") })),
+				}
+			}
+			rep.cover.nontrivial.insert(hash64(&("ladder", kind, k)));
+		}
+	}
+	rep.cover.count("depth_ladder_rungs", 2 * 64 + 40);
+	rep.violations.extend(out);
 }
 
 /// All 2^32 f32 bit patterns through the bare `float` schema.
@@ -214,6 +293,17 @@ pub fn replay(v: &serde_json::Value) -> i32 {
 		let b = serde_avro_fast::to_datum_vec(&f, &mut serde_avro_fast::ser::SerializerConfig::new(&schema));
 		println!("bits {bits:#x} -> {b:?}");
 		return 0;
+	}
+	if r["ladder"].is_string() {
+		let mut rep = Report::new("C01", "quick");
+		depth_ladders(&mut rep);
+		let k = r["k"].as_u64().unwrap_or(0);
+		let kind = r["ladder"].as_str().unwrap_or("");
+		let hits: Vec<&Violation> = rep.violations.iter().filter(|v| v.replay["k"].as_u64() == Some(k) && v.replay["ladder"].as_str() == Some(kind)).collect();
+		for v in &hits {
+			println!("  [{}] {}", v.class, v.what);
+		}
+		return if hits.is_empty() { 0 } else { 1 };
 	}
 	if let Some(fam) = r["typed_family"].as_str() {
 		let out = crate::c01_typed::replay(fam, r["value_index"].as_u64().unwrap_or(0) as usize);
